@@ -52,7 +52,7 @@ AST_SHAPE = {'off': 'off', 'default': 'd', 'no526': 'no526', 'func-first': 'ff',
 for _p in (True, False):
     for _f in ('FIRST', 'LAST', 'LAST_BEFORE_DECOR_HOSTILE'):
         for _t in ('FIRST', 'LAST', 'LAST_BEFORE_DECOR_HOSTILE'):
-            for _x, _xsrc in (('x0', ''), ('x557', ', is_pep557_fields=True')):
+            for _x, _xsrc in (('x0', ''), ('x557', ', is_pep557_fields=True'), ('xO0', ', strategy=BeartypeStrategy.O0')):
                 _n = f'p{int(_p)}-f{_f[0] + str(len(_f))}-t{_t[0] + str(len(_t))}-{_x}'
                 CONFIGS[_n] = (f"dict(claw_is_pep526={_p}, claw_decor_place_func=BeartypeDecorPlace.{_f}, "
                                f"claw_decor_place_type=BeartypeDecorPlace.{_t}{_xsrc})")
@@ -337,11 +337,18 @@ def main():
             n = rng.choice((2, 2, 3, 3, 4, 5))
             confs = [rng.choice(list(CONFIGS)) for _ in range(n)]
             for i in range(1, n):
+                # a third of the time the next run uses another configuration of the same AST shape: those two share a
+                # cache file by design, so whatever else distinguishes them must not have shaped the bytecode
+                if rng.random() < .33:
+                    same = [c for c in CONFIGS if AST_SHAPE[c] == AST_SHAPE[confs[i - 1]] and c != confs[i - 1] and c != 'off']
+                    if same:
+                        confs[i] = rng.choice(same)
+                        continue
                 # most of the time the next run differs from the previous one in exactly one option
                 if confs[i - 1].startswith('p') and '-f' in confs[i - 1] and rng.random() < .7:
                     parts = confs[i - 1].split('-')
                     j = rng.choice((0, 1, 2, 3, 3))
-                    alts = [('p0', 'p1'), ('fF5', 'fL4', 'fL25'), ('tF5', 'tL4', 'tL25'), ('x0', 'x557')][j]
+                    alts = [('p0', 'p1'), ('fF5', 'fL4', 'fL25'), ('tF5', 'tL4', 'tL25'), ('x0', 'x557', 'xO0')][j]
                     parts[j] = rng.choice([a for a in alts if a != parts[j]])
                     confs[i] = '-'.join(parts)
             edits = [rng.random() < .25 for _ in range(n)]
